@@ -92,7 +92,7 @@ def judge_scenario(sc, o):
 def api_level(chk, b, tier):
     drv = b.apidrv(race=True)
     rng = random.Random("C18|%d" % R.SEED)
-    n = 160 if tier == "quick" else 4000
+    n = 160 if tier == "quick" else 10000
     scenarios = [gen_scenario(rng, i) for i in range(n)]
     # run in 16 driver processes with a race log
     logdir = os.path.join(b.dir, "racelogs-c18")
@@ -295,7 +295,7 @@ def run(chk, b, tier):
     sz = b.sizer()
     shimdir = b.shimdir()
     scratch = b.scratchdir()
-    n = 24 if tier == "quick" else 300
+    n = 24 if tier == "quick" else 900
     res = R.pmap(cli_case, [(R.SEED, i, sz, shimdir, scratch) for i in range(n)], chk=chk)
     ticks = 0
     for i, r in enumerate(res):
